@@ -81,6 +81,24 @@ def overlap_case(rng):
             "\n    ".join(alts), m, ", ".join("{%s: operand}" % q for q in pn), lit, " @ ".join(pn), clash, rng.below(16),
             m, ", ".join(o.upper() if (o in codes and rng.chance(0.2)) else o for o in ops))
         return text, bits
+    if rng.chance(0.35):
+        # operand-first patterns: a rule that STARTS with a literal register (`r0 <- {value}`) next to one that starts with
+        # a sub-rule parameter offering the same register names (`{d: reg} <- {s: reg}`); on `r0 <- r1` both apply, the
+        # second spells `r1` literally (more literal characters in all) and must win -- also when a constant named `r1`
+        # exists, which makes the other reading assemble silently.  The two rules live under different leading prefixes.
+        regs = rng.shuffle(["r0", "r1", "r2", "a", "sp"])[:rng.range(2, 4)]
+        codes = {r: rng.below(16) for r in regs}
+        infix = rng.choice(["<-", "->", ",", "+"])   # (not `=` / `:=`: `r0 = r1` declares a constant, `a :` a label)
+        first, second = regs[0], rng.choice(regs[1:])
+        subs = ["%s => 0x%x" % (r, codes[r]) for r in regs]
+        rules = ["%s %s {value: u8} => 0x%02x @ value" % (first, infix, gen),
+                 "{d: reg} %s {s: reg} => 0x%02x @ d`4 @ s`4" % (infix, lit)]
+        if order:
+            rules.reverse(); subs.reverse()
+        const = "%s = %d\n" % (second, rng.below(200)) if rng.chance(0.6) else ""
+        ln = "%s %s %s" % (first.upper() if rng.chance(0.2) else first, infix if infix == "," else rng.choice([infix, " " + infix + "  "]), second)
+        text = "#subruledef reg\n{\n    %s\n}\n#ruledef\n{\n    %s\n}\n%s%s\n" % ("\n    ".join(subs), "\n    ".join(rules), const, ln)
+        return text, format(lit, "08b") + format(codes[first], "04b") + format(codes[second], "04b")
     rules = ["%s %s => 0x%02x" % (m, reg, lit), "%s {x} => 0x%02x @ x`8" % (m, gen)]
     if order:
         rules.reverse()
